@@ -191,6 +191,8 @@ inductive Ev
   | get (key : Bytes)
   | order (domain : Bytes)
   | put (key : Bytes)
+  | account (tosAgreed : Bool) (contact : Bytes) (eab : Bool)  -- newAccount request seen by the CA (first contact URL)
+  | csr (domain : Bytes) (extraExt : Bool)                    -- finalize request: CSR for the domain, with Manager.ExtraExtensions?
 deriving DecidableEq, Repr
 
 inductive Res
@@ -208,12 +210,23 @@ inductive StateVal
   | failed                   -- createCert failed: entry without certificate
 deriving DecidableEq, Repr
 
+/-- the Manager fields that shape account registration and the CSR -/
+structure Acct where
+  registered : Bool := false      -- m.client is set: an earlier issuance registered (or found) the account
+  terms : Bool := false           -- the CA's directory announces terms of service
+  prompt : Option Bool := some true  -- Manager.Prompt: none = nil, some b = a function returning b (AcceptTOS = true)
+  email : Bytes := []             -- Manager.Email ("" = none)
+  eab : Bool := false             -- Manager.ExternalAccountBinding is set
+  extraExt : Bool := false        -- Manager.ExtraExtensions is non-empty
+deriving DecidableEq, Repr
+
 structure World where
   whitelist : Option (List Bytes)     -- HostPolicy (none = nil = every host)
   cache : Option Cache                -- none = no Cache configured
   state : List (Bytes × StateVal)     -- m.state, keyed by certKey.String()
   tokens : List (Bytes × Cert) := []  -- m.certTokens: challenge certificates being validated, by name
   ca : CertKey → Option Cert          -- what the CA would issue for a key; none = order refused
+  acct : Acct := {}
 
 def policyOK (w : World) (name : Bytes) : Bool :=
   match w.whitelist with
@@ -256,14 +269,31 @@ def tokenPath (w : World) (name : Bytes) (now : Int) : Outcome :=
     | .ok c => (getEv w ck, .token c, w.state)
     | _ => (getEv w ck, .errNoToken, w.state)
 
-/-- `createCert` as the owner of a fresh state entry: order, `validCert` on the CA's answer, `cachePut` -/
+/-- `acmeClient`: register the account unless `m.client` is already set. none = registration cannot even
+    be attempted (the CA has terms of service and Manager.Prompt is nil). -/
+def acctEv (a : Acct) : Option (List Ev) :=
+  if a.registered then some []
+  else if a.terms && a.prompt.isNone then none
+  else some [.account (a.terms && a.prompt == some true) (if a.email.isEmpty then [] else asc "mailto:" ++ a.email) a.eab]
+
+/-- `createCert` as the owner of a fresh state entry: account registration (first time), order, finalize with the CSR, `validCert` on the CA's answer, `cachePut` -/
 def issue (w : World) (ck : CertKey) (now : Int) : Outcome :=
-  match w.ca ck with
-  | none => ([.order ck.domain], .errIssue, (ck.str, .failed) :: w.state)
-  | some c =>
-    if validCert ck c now then
-      (.order ck.domain :: putEv w ck, .issued c, (ck.str, .ready c) :: w.state)
-    else ([.order ck.domain], .errIssue, (ck.str, .failed) :: w.state)
+  match acctEv w.acct with
+  | none => ([], .errIssue, (ck.str, .failed) :: w.state)
+  | some ae =>
+    match w.ca ck with
+    | none => (ae ++ [.order ck.domain], .errIssue, (ck.str, .failed) :: w.state)
+    | some c =>
+      if validCert ck c now then
+        (ae ++ .order ck.domain :: .csr ck.domain w.acct.extraExt :: putEv w ck, .issued c, (ck.str, .ready c) :: w.state)
+      else (ae ++ [.order ck.domain, .csr ck.domain w.acct.extraExt], .errIssue, (ck.str, .failed) :: w.state)
+
+/-- after a call: is the account registered now? (`m.client` is set once Register succeeded) -/
+def registeredAfter (w : World) (evs : List Ev) : Bool :=
+  w.acct.registered || evs.any fun e => match e with | .account .. => true | _ => false
+
+/-- `Manager.TLSConfig().NextProtos` -/
+def tlsNextProtos : List Bytes := [asc "h2", asc "http/1.1", asc "acme-tls/1"]
 
 /-- `m.cert` followed, on ErrCacheMiss, by `createCert` -/
 def lookupOrIssue (w : World) (ck : CertKey) (now : Int) : Outcome :=
@@ -300,6 +330,46 @@ def conform (w : World) (h : Hello) (ascii : Option Bytes) (now : Int) : Outcome
   match r.2.1, ascii with
   | .served c, some name => if validCert (certKeyOf h name) c now then r else (r.1, .expiredNotServed, r.2.2)
   | _, _ => r
+
+/-! ## `Manager.HTTPHandler` (http-01 challenge responses, redirect of everything else) -/
+
+inductive HttpRes
+  | status (code : Nat) (body : Bytes)     -- body only for 200
+  | redirect (location : Bytes)            -- 302 Found
+  | fallback                               -- handed to the caller's fallback handler
+deriving DecidableEq, Repr
+
+def challengePrefix : Bytes := asc "/.well-known/acme-challenge/"
+
+/-- `hostNoPort` = `stripPort(r.Host)` and `cacheKey` = `path.Base(r.URL.Path)+"+http-01"` are computed by
+    the stdlib (parameters); `tokCache` = what `Cache.Get(cacheKey)` yields (none = miss or error). -/
+def httpHandler (w : World) (httpTokens : List (Bytes × Bytes)) (tokCache : Option (Option Bytes))
+    (fallbackNil : Bool) (method host path uri hostNoPort cacheKey : Bytes) : List Ev × HttpRes :=
+  if !(challengePrefix.isPrefixOf path) then
+    if !fallbackNil then ([], .fallback)
+    else if method != asc "GET" && method != asc "HEAD" then ([], .status 400 [])
+    else ([], .redirect (asc "https://" ++ hostNoPort ++ uri))
+  else if !policyOK w host then (polEv w host, .status 403 [])
+  else
+    match httpTokens.lookup path with
+    | some v => (polEv w host, .status 200 v)
+    | none =>
+      match tokCache with
+      | none => (polEv w host, .status 404 [])                         -- no Cache configured
+      | some none => (polEv w host ++ [.get cacheKey], .status 404 [])
+      | some (some v) => (polEv w host ++ [.get cacheKey], .status 200 v)
+
+/-! ## `DirCache`: a key/value store -/
+
+inductive DirOp | put (k v : Bytes) | get (k : Bytes) | del (k : Bytes)
+deriving Repr
+
+/-- results of the `get`s, in order: none = ErrCacheMiss -/
+def dirRun : List (Bytes × Bytes) → List DirOp → List (Option Bytes)
+  | _, [] => []
+  | m, .put k v :: r => dirRun ((k, v) :: m.filter (·.1 != k)) r
+  | m, .get k :: r => m.lookup k :: dirRun m r
+  | m, .del k :: r => dirRun (m.filter (·.1 != k)) r
 
 /-! ## 3. `certState` / `createCert` as a transition system
 
